@@ -477,6 +477,44 @@ func main() {
 		})
 		addStr("verifySlices", strings.Join(slices, " ; "))
 	}
+	// 10b. clone: the order of the steps of the clone procedure and the status protocol (C19)
+	{
+		calls := func(fd *ast.FuncDecl, want map[string]bool) string {
+			var out []string
+			ast.Inspect(fd, func(x ast.Node) bool {
+				if c, ok := x.(*ast.CallExpr); ok {
+					if s := src(c.Fun); want[s] {
+						if strings.HasSuffix(s, "SetCloneStatus") || strings.HasSuffix(s, "SetRebuilding") {
+							out = append(out, src(c))
+						} else {
+							out = append(out, s)
+						}
+					}
+				}
+				return true
+			})
+			return strings.Join(out, " ; ")
+		}
+		addStr("cloneReplicaOrder", calls(syncf.fn("Task", "CloneReplica"), map[string]bool{
+			"toClient.SetRebuilding": true, "t.syncFiles": true, "toClient.UpdateCloneInfo": true,
+			"toClient.ReloadReplica": true, "s.UpdateLUNMap": true}))
+		appf := parse(*repo, "app/replica.go")
+		addStr("appCloneOrder", calls(appf.fn("", "CloneReplica"), map[string]bool{
+			"task.CloneReplica": true, "s.Replica().SetCloneStatus": true}))
+		addStr("cloneStatusOrder", calls(appf.fn("", "startReplica"), map[string]bool{
+			"s.Replica().SetCloneStatus": true, "CloneReplica": true}))
+		ads := control.fn("Controller", "addReplicaDuringStartNoLock")
+		var conds []string
+		ast.Inspect(ads, func(x ast.Node) bool {
+			if i, ok := x.(*ast.IfStmt); ok && strings.Contains(src(i.Cond), "status ==") {
+				conds = append(conds, src(i.Cond))
+			}
+			return true
+		})
+		addStr("cloneStatusLoop", strings.Join(conds, " ; "))
+		uci := parse(*repo, "replica/replica.go").fn("Replica", "UpdateCloneInfo")
+		addStr("updateCloneInfo", src(uci.Body))
+	}
 	// 11. cleaner filter
 	{
 		f := syncf.fn("", "GetDeleteCandidateChain")
